@@ -29,3 +29,11 @@ Theorem C16_source_v1_has_export_containing : forall (V : Type) (vnil : V) (subj
   = existsb (fun e => negb (is_nil_v e) && is_contained_in subject (subj_of e)) l.
 Proof. intros V vnil subj_of is_nil_v. exact (src_v1_has_export_containing vnil subj_of is_nil_v). Qed.
 Print Assumptions C16_source_v1_has_export_containing.
+
+(* RenamingSubject.ToSubject - the subject a renaming subject stands for, which the overlap rules compare: a token that is
+   a reference (a dollar sign followed by an integer, nothing more and nothing less) reads as the wildcard *, every
+   other token stays as written (so $$1, $x, a lone $ are literal).  strconv.Atoi is an unknown function of its text,
+   here the model's [atoi]; a strings.Builder is the text written into it so far. *)
+Theorem C16_source_to_subject : forall s : string, V2.RenamingSubject_ToSubject o_atoi_err s = Model.Validate.to_subject s.
+Proof. exact src_to_subject. Qed.
+Print Assumptions C16_source_to_subject.
